@@ -127,6 +127,9 @@ where
                             }
                         }
                     }
+
+                    // The provider was kept and the function was dropped without being called.
+                    else => (),
                 }
             }
             .in_current_span(),
